@@ -8,6 +8,7 @@ import (
 	"fmt"
 	"math/rand"
 	"reflect"
+	"regexp"
 	"strconv"
 	"strings"
 
@@ -29,6 +30,7 @@ var scalarTypes = map[string]reflect.Type{
 }
 
 var ifaceType = reflect.TypeOf((*interface{})(nil)).Elem()
+var lastInt = regexp.MustCompile(`[0-9]+`)
 
 // arrayLen is needed to build an array type: it is read from the value description.
 func buildType(t In, v In) reflect.Type {
@@ -230,8 +232,38 @@ func staticValue(name string) (interface{}, J, J) {
 	return nil, nil, nil
 }
 
+// Two distinct named types that print the same (package.rec), declared in two function scopes, with different
+// layouts: anything keyed by a type's printed name instead of the type itself confuses them.
+func sameNameA() (interface{}, J, J) {
+	type rec struct {
+		a int8
+		b int64
+	}
+	t := J{"k": "slice", "e": J{"k": "struct", "f": []J{{"k": "int8"}, {"k": "int64"}}}}
+	v := J{"nil": false, "el": []J{{"f": []J{{"x": 1}, {"x": 2}}}, {"f": []J{{"x": 3}, {"x": 4}}}}}
+	return []rec{{1, 2}, {3, 4}}, t, v
+}
+
+func sameNameB() (interface{}, J, J) {
+	type rec struct {
+		a int64
+		b [4]int64
+		c int32
+	}
+	t := J{"k": "slice", "e": J{"k": "struct", "f": []J{{"k": "int64"}, {"k": "array", "n": 4, "e": J{"k": "int64"}}, {"k": "int32"}}}}
+	el := J{"f": []J{{"x": 1}, {"el": []J{{"x": 1}, {"x": 2}, {"x": 3}, {"x": 4}}}, {"x": 5}}}
+	return []rec{{}, {}}, t, J{"nil": false, "el": []J{el, el}}
+}
+
 func execSize(in In, em *Emitter) {
-	o := J{}
+	if in.has("static") && in.S("static") == "samename" {
+		// both in one process, one after the other, twice
+		for _, f := range []func() (interface{}, J, J){sameNameA, sameNameB, sameNameA, sameNameB} {
+			arg, t, v := f()
+			sizeOne(J{"topnil": false, "static": "samename", "t": t, "v": v}, arg, em)
+		}
+		return
+	}
 	var arg interface{}
 	if in.has("static") {
 		var t, v J
@@ -242,15 +274,25 @@ func execSize(in In, em *Emitter) {
 		typ := buildType(t, v)
 		arg = buildValue(t, v, typ).Interface()
 	}
+	sizeOne(in.m, arg, em)
+}
+
+func sizeOne(inm J, arg interface{}, em *Emitter) {
+	o := J{}
 	abn := guard(func() {
 		of := size.Of(arg)
 		stat := int64(-7)
 		if arg != nil {
 			first := strings.SplitN(size.Stat(arg, 0, 0), "\n", 2)[0]
+			// "the first line of Stat reports the same number": the number after the last ": " in today's format;
+			// should the wording change, the last integer on the line
 			i := strings.LastIndex(first, ": ")
-			n, err := strconv.ParseInt(first[i+2:], 10, 64)
+			n, err := strconv.ParseInt(strings.TrimSpace(first[i+2:]), 10, 64)
 			if err != nil {
 				n = -8
+				if m := lastInt.FindAllString(first, -1); len(m) > 0 {
+					n, _ = strconv.ParseInt(m[len(m)-1], 10, 64)
+				}
 			}
 			stat = n
 			// deeper renderings must not panic either, and their first line is the same
@@ -261,7 +303,7 @@ func execSize(in In, em *Emitter) {
 		}
 		o = J{"of": num(int64(of)), "stat": num(stat)}
 	})
-	em.Emit("size", J{"in": in.m, "out": o, "abn": abn})
+	em.Emit("size", J{"in": inm, "out": o, "abn": abn})
 	em.Calls(3)
 }
 
@@ -402,7 +444,7 @@ func (sg *sizeGen) val(t J, depth int, uniq bool) J {
 func genC20(g *Gen) {
 	sg := &sizeGen{r: g.R}
 	g.Case("size", J{"topnil": true})
-	for _, name := range []string{"inner", "innerptr", "outer", "outerslice", "emb", "embptr", "twoptr"} {
+	for _, name := range []string{"inner", "innerptr", "outer", "outerslice", "emb", "embptr", "twoptr", "samename"} {
 		g.Case("size", J{"topnil": false, "static": name})
 	}
 	// every scalar kind at top level, in a slice, an array, behind a pointer, in an interface, as map value
